@@ -257,6 +257,41 @@ def placeholder_verdicts(out, size):
     return v
 
 
+def library_size_chain():
+    """a string that a bundled procedure holds at the requested size must stay at that size when it is handed on: the callee's
+    parameter has to carry the placeholder too (otherwise the requested size stops half-way down the call chain)"""
+    import os
+    text = open(os.path.join(core.REPO, "coco", "resources", "ecb.b09"), encoding="latin-1").read()
+    MARK = 29999
+    procs = S.parse(re.sub(r"(?i)STRING<<>>", f"STRING[{MARK}]", text))
+    params, sized = {}, {}
+    for p in procs:
+        pl, sz = [], set()
+        for st in S.walk(p.body):
+            if st.kind in ("param", "dim"):
+                for grp, typ in st.a["groups"]:
+                    for nm, dims in grp:
+                        if st.kind == "param":
+                            pl.append((nm.lower(), typ))
+                        if typ and typ[0] == "STRING" and typ[1] == MARK:
+                            sz.add(nm.lower())
+        params[p.name.lower()], sized[p.name.lower()] = pl, sz
+    v = []
+    n = 0
+    for p in procs:
+        for st in S.walk(p.body):
+            if st.kind != "run" or st.a["name"].lower() not in params:
+                continue
+            callee = st.a["name"].lower()
+            for i, arg in enumerate(st.a["args"]):
+                n += 1
+                if arg[0] == "var" and not arg[2] and not arg[3] and arg[1].lower() in sized[p.name.lower()] and i < len(params[callee]):
+                    pn, typ = params[callee][i]
+                    if not (typ and typ[0] == "STRING" and typ[1] == MARK):
+                        v.append(("placeholder-chain-broken", p.name, f"{p.name} hands its string {arg[1]} (requested size) to {callee}, whose parameter {pn} is declared {typ} without the size placeholder"))
+    return n, v
+
+
 def cli_cases(run, scratch):
     """the same bundle through the file entry points (convert_file / the command line), where the size comes from -s"""
     import importlib
@@ -320,6 +355,12 @@ def run(run):
                 if c["procname"] in library()["graph"]:
                     feats.add("procname-shadows-library")
                 run.violation(sym, feats, {k: c.get(k) for k in ("text", "size", "procname", "origin", "content", "extra_opts")}, f"{c['origin']} size={c['size']} procname={c['procname']}: {detail}")
+    nchain, vchain = library_size_chain()
+    run.states += nchain
+    run.transitions += nchain
+    run.evaluations += nchain
+    for sym, pname, detail in vchain:
+        run.violation(sym, {"library", "proc:" + pname.lower()}, {"library_chain": pname}, detail)
     for sym, detail, size in cli_cases(run, run.scratch_dir()):
         run.violation(sym, {"cli", "storage:%d" % size}, {"cli": True, "size": size}, detail)
     run.distinct_n = len(keys)
